@@ -171,7 +171,7 @@ cdef class LegacyRecordBatch:
             self, Py_ssize_t pos, Py_ssize_t size) except -1:
         """ Confirm that the slice is not outside buffer range
         """
-        if pos + size > self._buffer.len:
+        if size < 0 or pos + size > self._buffer.len:
             raise CorruptRecordException(
                 "Can't read {} bytes from pos {}".format(size, pos))
 
